@@ -247,8 +247,37 @@ def rule_mx5(ctx: Ctx) -> RuleResult:
             v = p.value
             ok = False
             why = "return value is not rx.pipe(head, pipeline, demux_mux_observable(outer))"
+            stages = None
             if v[0] == "call" and v[1] == ("glob", "rx.pipe") and len(v[2]) == 3:
-                a, b, c = v[2]
+                stages = v[2]
+            elif v[0] == "func" and isinstance(v[1], ast.FunctionDef) and len(m.scopes[v[1]].params) == 1:
+                # the composition written out:  def _op(source): return demux(pipeline(head(source)))  with the locals of the factory
+                env = {e.name: e.value for e in p.trace if e.k == "assign"}
+                SRC = ("arg", m.scopes[v[1]].params[0])
+
+                def subst(x):
+                    if not isinstance(x, tuple):
+                        return x
+                    if x and x[0] == "free" and x[1] in env:
+                        return env[x[1]]
+                    if x and x[0] == "free" and x[1] in m.scopes[fn].params:
+                        return ("arg", x[1])
+                    return tuple(subst(y) for y in x)
+                inner_rets = [q for q in ctx.fn_paths(m, v[1], inline=False) if q.outcome == "return"]
+                if len(inner_rets) == 1 and inner_rets[0].value is not None:
+                    w, chain = inner_rets[0].value, []
+                    while w != SRC:
+                        if w[0] == "call" and len(w[2]) == 1:
+                            chain.append(subst(w[1]))
+                        elif w[0] == "ucall" and len(w[2]) == 1:
+                            chain.append(env.get(w[1], ("arg", w[1])))
+                        else:
+                            break
+                        w = w[2][0]
+                    if w == SRC and len(chain) == 3:
+                        stages = tuple(reversed(chain))
+            if stages is not None:
+                a, b, c = stages
                 if c[0] == "call" and c[1][0] == "func" and c[1][1].name == "demux_mux_observable" and len(c[2]) == 1:
                     o = c[2][0]
                     if a[0] == "sub" and o[0] == "sub" and a[1] == o[1] and a[2] == ("const", 0) and o[2] == ("const", 1) \
